@@ -6,6 +6,7 @@ import SpecVerif.Model.Levinson
 import SpecVerif.Model.Sides
 import SpecVerif.Model.Arma
 import SpecVerif.Model.Burg
+import SpecVerif.Model.Estimators
 /-
   Line-protocol driver for the executable model (no Mathlib anywhere below this file, so it links as a
   `lean_exe`).
@@ -99,7 +100,7 @@ abbrev Reply (K : Type) := Except String (List (List K))
 
 section Handlers
 variable {K : Type} [Add K] [Sub K] [Mul K] [Div K] [Neg K] [OfNat K 0] [OfNat K 1] [NatCast K]
-  [Conj K] [ReOrd K] [Twid K] [LogRe K]
+  [Conj K] [ReOrd K] [Twid K] [LogRe K] [IsZero K]
 
 def natAt (hd : List String) (i : Nat) : Nat := ((hd.getD i "0").toNat?).getD 0
 def strAt (hd : List String) (i : Nat) : String := hd.getD i ""
@@ -282,6 +283,18 @@ def handle (cmd : String) (hd : List String) (vs : List (List K)) : Reply K :=
         let lb := match B with | some b => b.length | none => 0
         if la ≥ nfft || lb ≥ nfft then .error "index"
         else .ok [arma2psd t A B (scalAt vs 2) (scalAt vs 3) nfft])
+  | "armaclass" =>
+      -- armaclass isReal nfft scale hasA hasB | A | B | rho | sampling | twoPi
+      let nfft := natAt hd 1
+      needTw nfft (fun t =>
+        let A := if natAt hd 3 = 1 then some (vecAt vs 0) else none
+        let B := if natAt hd 4 = 1 then some (vecAt vs 1) else none
+        let la := match A with | some a => a.length | none => 0
+        let lb := match B with | some b => b.length | none => 0
+        if la ≥ nfft || lb ≥ nfft then .error "index"
+        else
+          let raw := arma2psd t A B (scalAt vs 2) (scalAt vs 3) nfft
+          .ok [classPsd raw (natAt hd 0 = 1) nfft (natAt hd 2 = 1) (scalAt vs 4) (scalAt vs 3)])
   | "classpsd" =>
       -- classpsd isReal nfft scale | raw | twoPi | sampling
       .ok [classPsd (vecAt vs 0) (natAt hd 0 = 1) (natAt hd 1) (natAt hd 2 = 1) (scalAt vs 1) (scalAt vs 2)]
@@ -289,6 +302,30 @@ def handle (cmd : String) (hd : List String) (vs : List (List K)) : Reply K :=
       -- minvar nfft | a (leading 1 included) | P | sampling
       let nfft := natAt hd 0
       needTw nfft (fun t => .ok [minvarPsd t (vecAt vs 0) (scalAt vs 1) (scalAt vs 2) nfft])
+  | "aryule" =>
+      match normOf (strAt hd 1) with
+      | some nm =>
+          let x := vecAt vs 0
+          if natAt hd 0 ≥ x.length then .error "assert"
+          else let st := aryule x (natAt hd 0) nm; .ok [st.A, [st.P], st.ref]
+      | none => .error "value"
+  | "ma" =>
+      match maEstimate (vecAt vs 0) (natAt hd 0) (natAt hd 1) with
+      | .ok (b, rho) => .ok [b, [rho]]
+      | .error e => .error e
+  | "arcovar" | "modcovar" | "arcovarm" | "modcovarm" =>
+      let x := vecAt vs 0
+      let p := natAt hd 0
+      let r := match cmd with
+        | "arcovar" => arcovar x p | "modcovar" => modcovar x p
+        | "arcovarm" => arcovarMarple x p | _ => modcovarMarple x p
+      match r with
+      | some (a, e) => .ok [a, [e]]
+      | none => .error "singular"
+  | "arma" =>
+      match armaEstimate (vecAt vs 0) (natAt hd 0) (natAt hd 1) (natAt hd 2) with
+      | .ok (a, b, rho) => .ok [a, b, [rho]]
+      | .error e => .error e
   | "convhist" =>
       -- convhist isComplex nfft cur set:two get:center ... | p
       match sideOf (strAt hd 2), (hd.drop 3).mapM opOf with
@@ -302,7 +339,7 @@ def handle (cmd : String) (hd : List String) (vs : List (List K)) : Reply K :=
 end Handlers
 
 def runAt (K : Type) [Add K] [Sub K] [Mul K] [Div K] [Neg K] [OfNat K 0] [OfNat K 1] [NatCast K]
-    [Conj K] [ReOrd K] [Twid K] [LogRe K] [Codec K] (cmd : String) (hd : List String)
+    [Conj K] [ReOrd K] [Twid K] [LogRe K] [IsZero K] [Codec K] (cmd : String) (hd : List String)
     (secs : List (List String)) : String :=
   match secs.mapM (parseVec (K := K)) with
   | none => "err parse"
